@@ -532,7 +532,7 @@ func init() {
 	run.Register(run.Prop[C17Case]{
 		ID:    "C17",
 		Level: "fault_enumeration",
-		Rule: "case = payload (1-300 bytes quick, up to 70000 thorough, incl. page-sized) + 1-3 successive interrupted Store attempts, each in a re-executed child process whose RLIMIT_FSIZE is the cut offset N: mode 'crash' restores the default SIGXFSZ action so the kernel kills the process at byte N, mode 'ioerr' lets the write return EFBIG at byte N; enumerated: EVERY offset 0..len for payloads of 1,2,17,64,96 bytes (thorough up to 517) in both modes. Oracle after each attempt, from a fresh store object on the directory: Load(name) is an error or the complete bytes; child exit 0 (write reported success) => complete; finally Store(name, bytes) succeeds and Load returns the complete bytes (repair, not skip). " +
+		Rule: "case = payload (1-300 bytes quick, up to 70000 thorough, incl. page-sized) + 1-3 successive interrupted Store attempts, each in a re-executed child process whose RLIMIT_FSIZE is the cut offset N: mode 'crash' restores the default SIGXFSZ action so the kernel kills the process at byte N, mode 'ioerr' lets the write return EFBIG at byte N; enumerated: EVERY offset 0..len for payloads of 1,2,17,64,96 bytes (thorough up to 517) in both modes. Stores run under the background context, a cancellable context nobody cancels, or a far deadline. Oracle after each attempt, from a fresh store object on the directory: Load(name) is an error or the complete bytes; child exit 0 (write reported success) => complete; finally Store(name, bytes) succeeds and Load returns the complete bytes (repair, not skip). " +
 			"Non-trivial = some cut strictly inside the payload (0 < N < len); distinct by case hash",
 		Assumptions: []string{"tearing below the write syscall (power loss, page cache) is not modelled", "runs as a user allowed to lower RLIMIT_FSIZE of its children"},
 		Gen:         genC17,
